@@ -107,7 +107,7 @@ def _value(v, scopes):
     _err("value of unsupported JSON type %s" % type(v).__name__)
 
 
-def _container(c, scopes, info):
+def _container(c, scopes, info, foreign=False):
     recs = Counter()
     for key, body in c.items():
         if key in ("prefix", "bundle"):
@@ -128,10 +128,23 @@ def _container(c, scopes, info):
                 info["record_arrays"] = info.get("record_arrays", 0) + 1
             for o in objs:
                 pairs = []
+                extra_members = []
                 for k, v in o.items():
                     auri = _resolve(scopes, k)
                     if k in fmap or auri in {PROV + a for a, _ in formal}:
                         typ = dict((PROV + a, t) for a, t in formal)[auri]
+                        if foreign and isinstance(v, list):
+                            # PROV-JSON allows any value in an array; a formal attribute may still hold only one,
+                            # except prov:entity of hadMember (one membership per listed entity)
+                            if len(v) == 1:
+                                v = v[0]
+                                info["formal_in_array"] = info.get("formal_in_array", 0) + 1
+                            elif key == "hadMember" and auri == PROV + "entity" and len(v) > 1:
+                                extra_members = v[1:]
+                                v = v[0]
+                                info["multi_entity_membership"] = info.get("multi_entity_membership", 0) + 1
+                            else:
+                                _err("formal attribute %s has %d values" % (k, len(v)))
                         if not isinstance(v, str):
                             _err("formal attribute %s is not a string" % k)
                         if typ == "ref":
@@ -150,16 +163,21 @@ def _container(c, scopes, info):
                     else:
                         pairs.append((auri, _value(v, scopes)))
                 recs[(PROV + tname, rid, tuple(sorted(set(pairs), key=repr)))] += 1
+                for m in extra_members:
+                    col = [p_ for p_ in pairs if p_[0] == PROV + "collection"]
+                    recs[(PROV + tname, None, tuple(sorted(set(col + [(PROV + "entity", ("qn", _resolve(scopes, m)))]), key=repr)))] += 1
     return recs
 
 
-def read(text):
+def read(text, foreign=False):
+    """foreign=True accepts the dialect forms a third-party writer may use (C11); the default is the strict form
+    expected from this library's writer (C10)."""
     info = {"ambiguous_bundle_ids": 0}
     doc = json.loads(text)
     if not isinstance(doc, dict):
         _err("top level is not an object")
     top = _scope(doc)
-    recs = _container(doc, [top], info)
+    recs = _container(doc, [top], info, foreign)
     bundles = {}
     bl = doc.get("bundle", {})
     if not isinstance(bl, dict):
@@ -186,5 +204,5 @@ def read(text):
         uri = in_b if in_b is not None else in_d
         if uri in bundles:
             _err("two bundles with one identifier")
-        bundles[uri] = _container(body, [bs, top], info)
+        bundles[uri] = _container(body, [bs, top], info, foreign)
     return (recs, bundles), info
